@@ -60,7 +60,13 @@ class InitMethod(MethodDescriptor):
                         if not instance_attr_spec.init:
                             continue  # Not accepted by the parent constructor.
                         if attr in kwargs:
-                            parent_kwargs[attr] = kwargs.pop(attr)
+                            # The parent constructor does not copy values for
+                            # attributes of subclass instances, so we do so here.
+                            parent_kwargs[attr] = (
+                                kwargs.pop(attr)
+                                if instance_attr_spec.do_not_copy
+                                else protect_via_deepcopy(kwargs.pop(attr))
+                            )
                         else:
                             # Parent constructor may may be overridden, and not pick up
                             # subclass defaults. We pre-emptively solve this here.
